@@ -78,15 +78,32 @@ def strval(v, tb, depth=0):
         return None
     p = C.fn_parts(v)
     if p is None:
-        # c * text: repetition
-        if v.d.is_const() and len(v.n.t) == 1:
-            (m, c), = v.n.t.items()
-            c = c / v.d.const_value()
-            if len(m) == 1 and m[0][1] == 1 and c.denominator == 1 and c > 0:
-                s = strval(F.Rat(F.Poly.atom(m[0][0])), tb, depth + 1)
-                return None if s is None else s * int(c)
+        if not v.d.is_const():
+            return None
+        terms = [(m, c / v.d.const_value()) for m, c in v.n.t.items()]
+        parts = []
+        for m, c in terms:
+            # c * text: repetition
+            if len(m) != 1 or m[0][1] != 1 or c.denominator != 1 or c <= 0:
+                return None
+            at = F.Rat(F.Poly.atom(m[0][0]))
+            s = strval(at, tb, depth + 1)
+            if s is None:
+                return None
+            parts.append((C.sym_name(at) == "self._endian", s * int(c)))
+        if len(parts) == 1:
+            return parts[0][1]
+        # byte order + text written as a (commutative) sum: the byte order character comes first
+        if len(parts) == 2 and sum(1 for e, _s in parts if e) == 1:
+            return "".join(s for e, s in sorted(parts, key=lambda x: not x[0]))
         return None
     nm, args = p
+    if nm in ("fmt", "mod") and len(args) == 2 and not isinstance(args[1], str) and args[1].is_const() and args[1].const_value().denominator == 1:
+        f_ = strval(args[0], tb, depth + 1)
+        try:
+            return None if f_ is None else f_ % int(args[1].const_value())
+        except (TypeError, ValueError):
+            return None
     if nm == "cat":
         a, b = strval(args[0], tb, depth + 1), strval(args[1], tb, depth + 1)
         return None if a is None or b is None else a + b
